@@ -28,7 +28,7 @@ ASSUMPTIONS = [
     "Identifiers are whitespace-free (optlang rejects whitespace in names).",
 ]
 
-STRUCTURAL = {"add_reactions", "remove_reactions", "add_metabolites", "remove_metabolites", "add_boundary", "rxn_add_mets",
+STRUCTURAL = {"add_reactions", "readd", "remove_reactions", "add_metabolites", "remove_metabolites", "add_boundary", "rxn_add_mets",
               "imul", "iadd", "rename_rxn", "rename_met", "remove_genes", "from_string", "merge", "copy"}
 PASSIVE = {"optimize", "repair", "enter", "exit"}
 
